@@ -569,7 +569,18 @@ package xmpp
 //@   ghost restart bool = false
 //@   callsite foreign#*
 //@     preserves s.state, s.negotiated, s.features
-//@   callsite mellium.im/xmpp/internal/stream.Expect#*
+// receiving side of a restart: the addresses established so far are read
+// before the new header is parsed into the session (afterwards LocalAddr and
+// RemoteAddr already report the new header's own to/from, and the comparison
+// below would compare the header with itself)
+//@   ghost readLoc bool = false
+//@   ghost readOrig bool = false
+//@   ghost expected bool = false
+//@   callsite mellium.im/xmpp/internal/stream.Expect#1
+//@     assert[C12] readLoc && readOrig
+//@     preserves s.state, s.negotiated, s.features
+//@     after: expected = true
+//@   callsite mellium.im/xmpp/internal/stream.Expect#2
 //@     preserves s.state, s.negotiated, s.features
 //@   callsite mellium.im/xmpp/internal/stream.Send#1
 //@     assert[C12] ((s.state & S2S == 0 && oEmpty) || oSame) && (lEmpty || lSame)
@@ -589,9 +600,13 @@ package xmpp
 //@   ghost lEmpty bool = false
 //@   ghost lSame bool = false
 //@   callsite (*Session).LocalAddr#1
+//@     assert[C12] !expected
 //@     after: sLoc = ret0
+//@     after: readLoc = true
 //@   callsite (*Session).RemoteAddr#1
+//@     assert[C12] !expected
 //@     after: sOrig = ret0
+//@     after: readOrig = true
 //@   callsite (*Session).LocalAddr#2
 //@     after: cOrig = ret0
 //@   callsite (*Session).RemoteAddr#2
